@@ -443,7 +443,87 @@ R.add('L15.3', l153, [{}], replay=replay_l153,
       expect=['fromJson(toJson(x)) reproduces a derived class field for field', 'the base class round-trips field for field'],
       bounds='one base class (int, str) and one derived class (str, Dict[int,int], List[str]); 4 orders of use; values symbolic, containers of one element')
 
-for _lid in ['L15.1', 'L15.2', 'L15.3']:
+# ------------------------------------------------------------------ L15.4 enums with string values
+class Confirm(SerializableEnum):
+    # string-valued members whose values spell the *names* of other members (case-insensitively)
+    A = "b"
+    B = "a"
+    YES = "no"
+    NO = "yes"
+    PLAIN = "plain text"
+
+
+_holder15 = {}
+
+
+def _confirm_holder(S, E, T):
+    key = id(S)
+    if key not in _holder15:
+        ns = {'__annotations__': {'one': E, 'many': List[E], 'byname': Dict[E, T['int']]}, 'one': None, 'many': None, 'byname': None,
+              '__module__': __name__}
+        _holder15[key] = type(S)('HConfirm_%d' % len(_holder15), (S,), ns)
+    return _holder15[key]
+
+
+def _l154_run(S, E, T, i, j, mkdict):
+    H = _confirm_holder(S, E, T)
+    members = [E.A, E.B, E.YES, E.NO, E.PLAIN]
+    x = H()
+    x.one = members[i]
+    x.many = [members[j], members[i]]
+    x.byname = mkdict([(members[j], 5)])
+    out = []
+    for route, fn in (('fromJson(toJson(x))', lambda: H.fromJson(x.toJson())), ('loads(dumps(x))', lambda: H.loads(x.dumps()))):
+        try:
+            y = fn()
+        except Exception as ex:
+            out.append((False, '%s raised %s' % (route, type(ex).__name__)))
+            continue
+        same = (type(y.one) is E and y.one.value == x.one.value and len(y.many) == 2 and
+                all(type(a) is E and a.value == b.value for a, b in zip(y.many, x.many)) and
+                len(y.byname) == 1 and all(type(k) is E and k.value == members[j].value and v == 5 for k, v in y.byname.items()))
+        out.append((bool(same), '%s reproduces enum members whose values are strings' % route))
+    return out
+
+
+def l154():
+    """enum members are identified by their name in JSON and come back as the same member - also when an enum's string
+    *values* spell the names of other members"""
+    i = choose(5, 'member_i')
+    j = choose(5, 'member_j')
+
+    def mkdict(items):
+        d = SxDict()
+        for k, v in items:
+            d[k] = v
+        return d
+    for ok, msg in _l154_run(Serializable, Confirm, LEAFT, i, j, mkdict):
+        check(ok, msg if ok or 'raised' not in msg else 'fromJson(toJson(x)) reproduces enum members whose values are strings', detail=msg)
+
+
+_real_confirm = {}
+
+
+def replay_l154(cfg, m):
+    s = real('mpgameserver.serializable')
+    if 'E' not in _real_confirm:
+        _real_confirm['E'] = s.SerializableEnumType('RConfirm', (s.SerializableEnum,), {'A': 'b', 'B': 'a', 'YES': 'no', 'NO': 'yes', 'PLAIN': 'plain text', '__module__': __name__}) \
+            if hasattr(s, 'SerializableEnumType') else None
+    E = _real_confirm['E']
+    i = [v for k, v in m.items() if k.startswith('member_i')]
+    j = [v for k, v in m.items() if k.startswith('member_j')]
+    res = _l154_run(s.Serializable, E, REALT, i[0] if i else 0, j[0] if j else 0, dict)
+    bad = [msg for ok, msg in res if not ok]
+    return bool(bad), '; '.join(bad) or 'ok'
+
+
+R.add('L15.4', l154, [{}], replay=replay_l154,
+      desc='an enum with string values that spell the names of other members (A="b", B="a", YES="no", NO="yes"): plain field, list and '
+           'dict key round-trip to the same members by both JSON routes',
+      expect=['fromJson(toJson(x)) reproduces enum members whose values are strings', 'loads(dumps(x)) reproduces enum members whose values are strings'],
+      bounds='one enum of 5 string-valued members; 25 member pairs; field shapes: plain, List, Dict key')
+
+for _lid in ['L15.1', 'L15.2', 'L15.3', 'L15.4']:
     if _lid in R.lemmas:
         R.lemmas[_lid].api = True
 
